@@ -403,16 +403,4 @@ static inline void x86_xmm_w64 (x86_state *s, int x, uint64_t v) { s->xmm[x][0] 
 #define X86_ST(s, i) ((s)->st[((s)->top + (i)) & 7])
 static inline void x86_fpush (x86_state *s, long double v) { s->top = (s->top - 1) & 7; s->st[s->top] = v; s->fdepth++; }
 static inline long double x86_fpop (x86_state *s) { long double v = s->st[s->top]; s->top = (s->top + 1) & 7; s->fdepth--; return v; }
-/* fistp: round to nearest even (default RC); out of range -> integer indefinite */
-static inline int64_t x86_ld2i_rne (long double v, long double lo, long double hi, int64_t indef) {
-  int64_t t;
-  long double fl, diff;
-  if (!(v >= lo && v <= hi)) return indef;
-  t = (int64_t) v; /* truncation toward zero */
-  fl = (long double) t;
-  diff = v - fl;
-  if (diff > 0.5L || (diff == 0.5L && (t & 1))) t++;
-  else if (diff < -0.5L || (diff == -0.5L && (t & 1))) t--;
-  return t;
-}
 #endif
